@@ -5,6 +5,7 @@ import generic_lints
 import twins
 import triggers
 import dead_reads
+import c19_rules
 
 
 def run(facts, tier):
@@ -15,6 +16,7 @@ def run(facts, tier):
         ("bookkeeping", F.bookkeeping, 5, "update order; merge adds offsets and the total computed before the replay; emptiness considers total weight"),
         ("probe displacement", F.probe_displacement, 1, "hash_delete measures displacement with a wrapping step counter"),
         ("reader dead-reads", lambda fa: [o for o in dead_reads.obligations(fa) if "frequent_items_sketch" in o["key"]], 10, "every field the frequent-items readers take from the image (total weight, offset, weights, items) reaches the restored sketch on every accepting path"),
+        ("state table initialised", lambda fa: [o for o in c19_rules.full_init(fa) if o["key"].startswith("reverse_purge_hash_map")], 3, "the slot-state array of the hash map is initialised over its whole extent in constructors, copies and resize (phantom items otherwise)"),
         ("couplings", lambda fa: cowrite.obligations(fa, ['frequent_items_sketch', 'reverse_purge_hash_map']), 8, "fields that every mutator updates together (counters, extremes, cached values) are still updated together"),
         ("tautologies", lambda fa: generic_lints.tautologies(fa, ('fi/',)), 2, "no comparison / assignment / min-max with two identical operands, no if-else with identical arms"),
         ("duplicate operands", lambda fa: generic_lints.duplicate_conjuncts(fa, ('fi/',)), 2, "no logical chain tests the same operand twice (copy-paste of the wrong peer)"),
